@@ -7,7 +7,33 @@ import shutil
 import subprocess
 import time
 
+import signal
+
 from verif import log
+
+
+class _Res:
+    def __init__(self, rc, out):
+        self.returncode, self.stdout, self.stderr = rc, out, ""
+
+
+def _run_group(cmd, cwd, timeout):
+    """Runs tlapm as leader of a process group of its own and ends the whole group afterwards: tlapm may leave its
+    back ends (z3, Isabelle's poly) behind when it gives up on an obligation - on a loaded machine they were found
+    running an hour later."""
+    p = subprocess.Popen(cmd, cwd=cwd, stdout=subprocess.PIPE, stderr=subprocess.STDOUT, text=True, start_new_session=True)
+    try:
+        out, _ = p.communicate(timeout=timeout)
+        return _Res(p.returncode, out)
+    finally:
+        try:
+            os.killpg(p.pid, signal.SIGKILL)
+        except (ProcessLookupError, PermissionError):
+            pass
+        try:
+            p.communicate(timeout=10)
+        except Exception:  # noqa: BLE001
+            pass
 
 
 def tlaps(work, module, deps, theorem, neg=None, threads=8, timeout=1500):
@@ -21,8 +47,7 @@ def tlaps(work, module, deps, theorem, neg=None, threads=8, timeout=1500):
         for f in deps + [module + ".tla"]:
             shutil.copy(os.path.join(work.dir, f), d)
         t0 = time.time()
-        pos = subprocess.run(["tlapm", "--threads", str(threads), module + ".tla"], cwd=d, capture_output=True,
-                             text=True, timeout=timeout)
+        pos = _run_group(["tlapm", "--threads", str(threads), module + ".tla"], d, timeout)
         m = re.search(r"All (\d+) obligations? proved", pos.stdout + pos.stderr)
         info["obligations_proved"] = int(m.group(1)) if m else 0
         info["status"] = "proved" if m and pos.returncode == 0 else "not proved"
@@ -37,8 +62,7 @@ def tlaps(work, module, deps, theorem, neg=None, threads=8, timeout=1500):
             if txt.count(old) != 1:
                 raise RuntimeError("negative control could not be derived")
             open(os.path.join(nd, fname), "w").write(txt.replace(old, new))
-            negr = subprocess.run(["tlapm", "--threads", str(threads), module + ".tla"], cwd=nd, capture_output=True,
-                                  text=True, timeout=timeout)
+            negr = _run_group(["tlapm", "--threads", str(threads), module + ".tla"], nd, timeout)
             m2 = re.search(r"(\d+)/(\d+) obligations failed", negr.stdout + negr.stderr)
             info["negative_control"] = {"variant": what, "obligations_failed": int(m2.group(1)) if m2 else 0,
                                         "refuted": bool(m2) and negr.returncode != 0}
